@@ -5,6 +5,7 @@
 SEED=$1; shift
 ID=$(basename $SEED)
 W=/tmp/eval_$ID
+ulimit -v 16000000
 rm -rf $W/crate; mkdir -p $W/crate
 cp -r /verif/harness/Cargo.toml /verif/harness/Cargo.lock /verif/harness/.cargo /verif/harness/src $W/crate/
 sed -i "s#path = \"/repo\"#path = \"$SEED\"#" $W/crate/Cargo.toml
